@@ -1,7 +1,7 @@
 """C20 Any well-formed witness graph evaluates as specified and survives storage: codec tables, node codec, container framing,
 evaluator dispatch shape, input placement."""
 import re
-from ..symex import Engine, show, subterms, contains
+from ..symex import Engine, show, subterms, contains, known_ok
 from ..lib import *
 from ..facts import MissingAnchor
 
@@ -476,7 +476,8 @@ def check_framing(ctx, fb):
     ctx.touch(rm)
     eng = Engine(fb, inline=lambda i: False)
     paths = eng.run(rm)
-    oks = [p for p in paths if p.kind == "return" and eng.value_of(p.store, p.ret)[0] == "adt" and eng.value_of(p.store, p.ret)[2] == "Ok"]
+    # a success path returns Ok(decoded message) or hands on the decoder's own Result (`decode(..).map_err(..)`)
+    oks = [p for p in paths if p.kind == "return" and known_ok(eng.value_of(p.store, p.ret)) is not False and p.calls(r"prost::Message::decode")]
     ok = False
     why = "expected one success path, found %d" % len(oks)
     if len(oks) == 1:
